@@ -87,10 +87,14 @@ type runState struct {
 	model   map[string]*senderModel
 	snap    []txcache.VerifSender // per-sender lists after the previous step
 
+	inLists map[string]string // scratch of checkC25
+
 	limitsBound bool // C25 non-trivial
 	gapSelected bool // C26 non-trivial
 	stop        bool
 }
+
+const siteSelect = "SelectTransactions"
 
 func senderKey(s int64) string { return fmt.Sprintf("sender-%02d", s) }
 
@@ -145,7 +149,6 @@ func run(c *simkit.Ctx) bool {
 			break
 		}
 	}
-	synctest.Wait()
 	if st.prop == "C25" {
 		return st.limitsBound
 	}
@@ -175,9 +178,9 @@ func totalTxs(snap []txcache.VerifSender) int {
 
 // hasTie reports whether two senders share a score bucket (their relative order is Go map order).
 func hasTie(snap []txcache.VerifSender) bool {
-	seen := map[uint32]bool{}
+	var seen [txcache.VerifNumScoreBuckets]bool
 	for i := range snap {
-		if !snap[i].InScoreBucket {
+		if !snap[i].InScoreBucket || snap[i].ScoreBucket >= txcache.VerifNumScoreBuckets {
 			continue
 		}
 		if seen[snap[i].ScoreBucket] {
@@ -243,9 +246,13 @@ func (st *runState) summary() string {
 // ---------------------------------------------------------------------------------------------
 
 // afterStep quiesces the pool, reads the per-sender lists, checks the C25 invariants and keeps the C26 model in
-// step with senders that appeared or disappeared. addSender is the sender key of an AddTx step ("" otherwise).
-func (st *runState) afterStep(site string, addSender string, addMayReplace bool) {
-	synctest.Wait()
+// step with senders that appeared or disappeared. addSender/addHash are the sender key and hash of an AddTx step
+// ("" otherwise); addMayReplace says that this AddTx ran the pool-level eviction first.
+func (st *runState) afterStep(site string, addSender string, addHash string, addMayReplace bool) {
+	if site == siteSelect {
+		// the only operation that spawns a goroutine (`go cache.doAfterSelection()`: sweeping + diagnose)
+		synctest.Wait()
+	}
 	c := st.c
 	pre := st.snap
 	post := st.cache.VerifSenders()
@@ -268,7 +275,9 @@ func (st *runState) afterStep(site string, addSender string, addMayReplace bool)
 			survivor := false
 			old := map[string]bool{}
 			for _, t := range was.Txs {
-				old[string(t.Hash)] = true
+				if string(t.Hash) != addHash { // the offered transaction itself proves nothing: it is (re-)added after the eviction
+					old[string(t.Hash)] = true
+				}
 			}
 			for _, t := range post[i].Txs {
 				if old[string(t.Hash)] {
@@ -309,7 +318,11 @@ func (st *runState) afterStep(site string, addSender string, addMayReplace bool)
 
 func (st *runState) checkC25(site string, snap []txcache.VerifSender, addSender string) {
 	c := st.c
-	inLists := map[string]string{}
+	if st.inLists == nil {
+		st.inLists = map[string]string{}
+	}
+	clear(st.inLists)
+	inLists := st.inLists
 	var totalBytes int64
 	broken := false
 	for i := range snap {
@@ -450,7 +463,7 @@ func (st *runState) doAdd(i int, step *simkit.Step) {
 	_, wasPooled := st.cache.GetByTxHash([]byte(h))
 	pre := st.snap
 	ok, added := st.cache.AddTx(st.wrap(t))
-	st.afterStep("AddTx", key, willEvict)
+	st.afterStep("AddTx", key, h, willEvict)
 	post := st.snap
 	_, pooled := st.cache.GetByTxHash([]byte(h))
 	c.Eventf("%d add %s -> ok=%v added=%v pooled=%v %s", i, h, ok, added, pooled, st.summary())
@@ -505,7 +518,7 @@ func (st *runState) doRemove(i int, step *simkit.Step) {
 		st.offList = append(st.offList, h)
 	}
 	removed := st.cache.RemoveTxByHash([]byte(h))
-	st.afterStep("RemoveTxByHash", "", false)
+	st.afterStep("RemoveTxByHash", "", "", false)
 	if removed {
 		st.c.Probe("removed_pooled_tx")
 	}
@@ -524,7 +537,7 @@ func (st *runState) doNotify(i int, step *simkit.Step) {
 	} else {
 		st.c.Probe("notify_dropped")
 	}
-	st.afterStep("NotifyAccountNonce", "", false)
+	st.afterStep("NotifyAccountNonce", "", "", false)
 	st.c.Eventf("%d notify %s nonce=%d %s", i, senderID(key), nonce, st.summary())
 }
 
@@ -533,7 +546,7 @@ func (st *runState) doClear(i int) {
 		st.c.Probe("clear_nonempty")
 	}
 	st.cache.Clear()
-	st.afterStep("Clear", "", false)
+	st.afterStep("Clear", "", "", false)
 	st.c.Eventf("%d clear %s", i, st.summary())
 }
 
@@ -554,7 +567,7 @@ func (st *runState) doSelect(i int, step *simkit.Step) {
 	res := st.cache.SelectTransactions(n, batch)
 
 	// --- C26 ---
-	site := "SelectTransactions"
+	site := siteSelect
 	if len(res) > n {
 		c.Violate("C26", "more-than-requested", site, "SelectTransactions(%d,%d) returned %d transactions", n, batch, len(res))
 	}
@@ -600,6 +613,16 @@ func (st *runState) doSelect(i int, step *simkit.Step) {
 		cnt := len(picked[k])
 		parts = append(parts, fmt.Sprintf("%s:%d", senderID(s.Sender), cnt))
 		if len(s.Txs) == 0 {
+			// an empty list has no lowest pooled nonce, hence no initial gap: a visited sender starts over
+			if m := st.model[s.Sender]; m != nil && m.known != nonceMaybe {
+				if !full {
+					m.lo, m.hi = 0, 0
+				} else {
+					m.lo = 0
+				}
+			} else if m != nil {
+				m.lo = 0
+			}
 			continue
 		}
 		// the selected transactions are the first ones of the list
@@ -673,7 +696,7 @@ func (st *runState) doSelect(i int, step *simkit.Step) {
 	}
 
 	preSenders := len(pre)
-	st.afterStep(site, "", false)
+	st.afterStep(site, "", "", false)
 	if len(st.snap) < preSenders {
 		c.Probe("sweep_removed_sender")
 		st.limitsBound = true
